@@ -35,7 +35,12 @@ inductive SObs where
   /-- `Close` of handle `h` returned; `u` = `Close` calls seen by the underlying connection so far,
       `rel` = parked reads of this handle that returned with a closed error -/
   | closed (h : Nat) (u : Nat) (rel : Nat)
-  | io (h : Nat) (k : IOKind) (r : IORes)
+  /-- the same, but `Close` returned an error (not a closed error) -/
+  | closedErr (h : Nat) (u : Nat) (rel : Nat)
+  /-- a read / a write through handle `h`; a write goes to connection `c` of the ufrag (`c` is meaningless for reads) -/
+  | io (h : Nat) (k : IOKind) (c : Nat) (r : IORes)
+  /-- fault injection: connection `c` starts (`on`) / stops refusing `SetWriteDeadline` and `SetDeadline` -/
+  | fault (c : Nat) (on : Bool)
   /-- a deadline setter was called on handle `h`: `rd`/`wr` = it sets the read / the write deadline
       (`SetReadDeadline` = rd, `SetWriteDeadline` = wr, `SetDeadline` = both); `past` = to a time in the past -/
   | dl (h : Nat) (rd wr : Bool) (past : Bool) (r : IORes)
@@ -59,7 +64,17 @@ structure SMon where
   /-- per handle: the handle is open and ITSELF last set its write deadline to a time in the past (it *holds* a
       write deadline on the shared connection); reset when the handle is closed / aborted -/
   ownWd : List Bool := []
+  /-- per connection of the ufrag: it refuses deadline calls right now (injected fault) -/
+  refusing : List Bool := []
+  /-- per connection: it has refused deadline calls at some time (its own writes may fail: it is not *healthy*) -/
+  everRef : List Bool := []
   deriving DecidableEq, Repr
+
+/-- the monitor for an underlying connection with `k` scripted connections -/
+def SMon.initK (k : Nat) : SMon := { refusing := List.replicate k false, everRef := List.replicate k false }
+
+/-- some connection refuses deadline calls: a call that forwards a write deadline may report its error -/
+def SMon.faulty (m : SMon) : Bool := m.refusing.any id
 
 def disturbedWrite : String :=
   "write of an open handle timed out under a write deadline that outlived the closed handle that armed it"
@@ -98,6 +113,15 @@ def sharedViolation (m : SMon) : SObs → SMon × Option String
       (m, if u ≠ m.u then some "repeated Close of one handle closed the underlying connection again"
           else if rel ≠ 0 then some "repeated Close released reads" else none)
     | some true => closeClause m h u rel
+  | .closedErr h u rel =>
+    match m.isOpen[h]? with
+    | none => (m, some "close of an unknown handle")
+    | some false => (m, some "repeated Close of one handle returned an error")
+    | some true =>
+      let (m', why) := closeClause m h u rel
+      (m', if m.faulty = false then some "Close returned an error although no connection refuses deadline calls" else why)
+  | .fault c on =>
+    ({ m with refusing := m.refusing.set c on, everRef := m.everRef.set c (m.everRef.getD c false || on) }, none)
   | .aborted h r u rel =>
     match m.isOpen[h]? with
     | none => (m, some "abort of an unknown handle")
@@ -108,7 +132,7 @@ def sharedViolation (m : SMon) : SObs → SMon × Option String
     | some true =>
       -- the handle armed its OWN deadlines (SetDeadline(now)) and is closed: it holds nothing any more
       let (m', why) := closeClause { m with ownRd := m.ownRd.set h true } h u rel
-      (m', if r ≠ .ok then some "abortIO of an open handle failed" else why)
+      (m', if r ≠ .ok ∧ ¬ (r = .other ∧ m.faulty = true) then some "abortIO of an open handle failed" else why)
   | .dl h rd wr past r =>
     match m.isOpen[h]? with
     | none => (m, some "I/O on an unknown handle")
@@ -117,8 +141,9 @@ def sharedViolation (m : SMon) : SObs → SMon × Option String
     | some true =>
       ({ m with ownRd := if rd then m.ownRd.set h past else m.ownRd, ownWd := if wr then m.ownWd.set h past else m.ownWd },
        if r = .errClosed then some "I/O of an open handle failed as closed (disturbed by a sibling)"
-       else if r ≠ .ok then some "write/deadline call on an open handle did not succeed" else none)
-  | .io h k r =>
+       else if r ≠ .ok ∧ ¬ (r = .other ∧ wr = true ∧ m.faulty = true) then some "write/deadline call on an open handle did not succeed"
+       else none)
+  | .io h k c r =>
     match m.isOpen[h]? with
     | none => (m, some "I/O on an unknown handle")
     | some false =>
@@ -130,7 +155,9 @@ def sharedViolation (m : SMon) : SObs → SMon × Option String
        else if r = .other then some "unexpected I/O result"
        else match k with
          | .write =>
-           if r = .errTimeout then (if m.held then none else some disturbedWrite)
+           -- a timeout is legitimate under a deadline an OPEN handle holds; a connection that has refused deadline
+           -- calls is not healthy and may fail; on every healthy connection the deadline must not outlive its handle
+           if r = .errTimeout then (if m.held || m.everRef.getD c false then none else some disturbedWrite)
            else if r ≠ .ok then some "write/deadline call on an open handle did not succeed" else none
          | .read =>
            if r = .ok then some "unexpected read result"
